@@ -51,5 +51,11 @@ CHECKS = {
         "note": "Trusted: the admissibility predicate and greedy-stability clauses in mc/props/C20.py (numpy), mc/oracles/so3.py. Scenes of at most 3+3 points; the CUDA kernel cannot run here; the 25-candidate cap is outside the quantifier.",
         "technique": "bounded-exhaustive enumeration of small point scenes and configurations on the implementation against an independent admissibility/stability oracle",
     },
+    "C17": {
+        "engine": "mc/bfs",
+        "text": "Mdoc: explicit-state BFS (14 operation instances: sort, sort+reset, remove by position with/without kept_only, reset, write/re-read with and without removed images, module-level remove/sort through files) from two documents to depth 4 (quick) / 6 (thorough) in lock-step with a list-of-dicts model, the written text tokenised independently; plus every document of a small grammar (value kinds x titles x image counts x angle orders) read, written and re-read. Loaders: every file layout of a small alphabet (number spellings, final newline, sorted/unsorted, gctf with/without phase shift and extra columns, ctffind4, mdoc dose). Wedge lists: every combination of 1..3 tomograms x 1..3 tilts x dimension form x z-shift form x ctf x dose; written STOPGAP/EM files parsed independently.",
+        "note": "Trusted: the mdoc writer/tokenizer and models in mc/props/C17.py, mc/oracles/startok.py, mc/oracles/emfmt.py. Mdoc floats restricted to positional repr; an int coming back as the equal float is not judged.",
+        "technique": "explicit-state BFS over Mdoc operation histories plus bounded-exhaustive enumeration of file layouts/configurations, on the implementation",
+    },
 }
 NOT_APPLICABLE = {}
